@@ -16,9 +16,22 @@ Theorem C07_uniform : forall (s : store) l1 l2 i fm, In l1 (langs s) -> In l2 (l
 Proof. exact pad_uniform. Qed.
 Print Assumptions C07_uniform.
 
-(* REFUTED for choices (known finding F9): an unlabelled, media-less choice in a list that needs itext *)
-Theorem C07_unlabelled_choice_refuted :
+(* choices, after fix 57bc304 (finding F9 repaired): the padding is handed the item ids of every list that uses itext (pad_with), and then
+   EVERY id an item carries has an entry in EVERY language, for any list, any other facts in the store and any pattern of missing labels *)
+Theorem C07_choice_item_ids_closed : forall dl list_name (cs : list choice) (other : list fact) l id,
+  let s := build (other ++ list_facts dl list_name 0 cs) in
+  In l (langs s) -> In id (emitted_item_ids list_name cs) ->
+  exists fm, lookup (pad_with (emitted_item_ids list_name cs) s) l id fm <> None.
+Proof. exact choice_item_ids_closed. Qed.
+Print Assumptions C07_choice_item_ids_closed.
+(* the padding of the unrepaired code (pad: only ids that some language mentions) left such an id without any entry: the witness that
+   exposed finding F9 *)
+Theorem C07_padding_without_item_ids_refuted :
   exists id, In id (emitted_item_ids [108]%N f9_choices) /\
   forall l fm, lookup (pad (build (list_facts [100]%N [108]%N 0 f9_choices))) l id fm = None.
 Proof. exact unlabelled_choice_refuted. Qed.
-Print Assumptions C07_unlabelled_choice_refuted.
+Print Assumptions C07_padding_without_item_ids_refuted.
+Theorem C07_placeholder_pinned : PX.Gen.Itext.ITEXT_PLACEHOLDER = DASH.
+Proof. exact placeholder_pinned. Qed.
+Print Assumptions C07_placeholder_pinned.
+
